@@ -147,10 +147,12 @@ def vec_exhaustive(tier):
 
 def vec_random(rng, count):
     for _ in range(count):
-        pos = rand_map(rng, rng.randrange(0, 60), rng.choice([50, 1400, 9000]))
         res = rng.choice([1, 100, 1400, 7, 256])
-        start = rng.choice([0, 0, rng.randrange(-20000, 100000)])
-        stop = rng.choice(["none", 0, rng.randrange(0, 300000)])
+        scale = max(1, res // 3)          # keep vectors at a few hundred bins whatever the resolution
+        pos = [p * scale // 50 for p in rand_map(rng, rng.randrange(0, 60), rng.choice([50, 140, 900]))]
+        span = (pos[-1] if pos else 100 * scale)
+        start = rng.choice([0, 0, rng.randrange(-span // 3 - 1, span + 1)])
+        stop = rng.choice(["none", 0, rng.randrange(0, 2 * span + 1)])
         yield f"VEC res={res} start={start} stop={stop} POS={','.join(map(str, pos))}"
 
 
